@@ -120,7 +120,8 @@ def interleaved_cases(group: List[Tuple[str, bytes]]) -> List[dict]:
             except BaseException as ex:  # noqa: BLE001
                 res['exc'] = type(ex).__name__
         out.append({'id': cid, 'b': list(data), 'lib': {'exc': res['exc'], 'valid': res['valid'], 'qs': res['qs'], 'rrs': res['rrs']},
-                    'events': 0, 'maxName': mx, 'faith': len(data) <= 600 and faithful_domain(data)})
+                    'events': 0, 'maxName': mx, 'faith': len(data) <= 600 and faithful_domain(data),
+                    'scoped': {'exc': '', 'valid': res['valid'], 'n': len(res['rrs']), 'nq': len(res['qs'])}, 'bigDiffers': 0})
     return out
 
 
@@ -154,11 +155,61 @@ def faithful_domain(data: bytes) -> bool:
     return True
 
 
+def scoped_decode(data: bytes) -> Dict[str, Any]:
+    """The same datagram as an IPv6 socket hands it over: with the scope id of the receiving interface."""
+    from zeroconf._protocol.incoming import DNSIncoming
+
+    class WallClock(BaseException):
+        pass
+
+    def on_alarm(signum: int, frame: Any) -> None:
+        raise WallClock()
+    old_handler = signal.signal(signal.SIGALRM, on_alarm)
+    signal.setitimer(signal.ITIMER_REAL, WALL_LIMIT_S)
+    try:
+        try:
+            inc = DNSIncoming(data, ('fe80::9', 5353), 3)
+            n = len(inc.answers())
+        finally:
+            signal.setitimer(signal.ITIMER_REAL, 0)
+            signal.signal(signal.SIGALRM, old_handler)
+        return {'exc': '', 'valid': bool(inc.valid), 'n': n if inc.valid else 0, 'nq': len(inc.questions) if inc.valid else 0}
+    except BaseException as ex:  # noqa: BLE001
+        return {'exc': 'DoesNotTerminate' if isinstance(ex, WallClock) else type(ex).__name__, 'valid': False, 'n': 0, 'nq': 0}
+
+
+def independent_agrees(data: bytes) -> int:
+    """For datagrams beyond what TLC's StrictParse is given (600 octets): 1 when the independent parser (vf/wire.py) accepts the
+    datagram, it uses supported types only, and the library's questions and records differ from the parser's; else 0."""
+    from props import wirefam as wf
+    from zeroconf._protocol.incoming import DNSIncoming
+    try:
+        m = wire.parse(data)
+    except wire.WireError:
+        return 0
+    if any(e.type not in (1, 28, 12, 5, 16, 33, 13, 47) for e in m.records()):
+        return 0
+    if any(len(e.name.text) > 253 for e in m.entries()):
+        return 0
+    try:
+        inc = DNSIncoming(data)
+        if not inc.valid:
+            return 1
+        lq = [('q', q.name, q.type, q.class_ | (0x8000 if q.unique else 0)) for q in inc.questions]
+        lr = [wf.key_of_lib_record(r) for r in inc.answers()]
+    except Exception:  # noqa: BLE001
+        return 1
+    return 0 if lq == [wf.key_of_entry(e) for e in m.questions] and lr == [wf.key_of_entry(e) for e in m.records()] else 1
+
+
 def make_case(job: Tuple[str, bytes]) -> dict:
     cid, data = job
     lib = lib_decode(data)
+    sc = scoped_decode(data)
     return {'id': cid, 'b': list(data), 'lib': {'exc': lib['exc'], 'valid': lib['valid'], 'qs': lib['qs'], 'rrs': lib['rrs']},
-            'events': lib['events'], 'maxName': lib['maxName'], 'faith': len(data) <= 600 and faithful_domain(data)}
+            'events': lib['events'], 'maxName': lib['maxName'], 'faith': len(data) <= 600 and faithful_domain(data),
+            'scoped': {'exc': sc['exc'], 'valid': sc['valid'], 'n': sc['n'], 'nq': sc['nq']},
+            'bigDiffers': independent_agrees(data) if len(data) > 600 and cid.startswith('big') else 0}
 
 
 # ------------------------------------------------------------------------------ generators
@@ -231,8 +282,40 @@ def mutate(rng: random.Random, data: bytes) -> bytes:
 def hostile(rng: random.Random) -> bytes:
     """Adversarial compression graphs up to the datagram limit."""
     kind = rng.choice(['chain', 'chain', 'cycle', 'self', 'forward', 'deepchain', 'labels', 'rdata-pointer', 'manyq', 'longrd', 'longrd',
-                       'longptr', 'longptr', 'nsecmap', 'nsecmap'])
+                       'longptr', 'longptr', 'nsecmap', 'nsecmap', 'labelchain', 'labelchain'])
     hdr = bytearray([0, 0, 0x84, 0, 0, 0, 0, 1, 0, 0, 0, 0])
+    if kind == 'labelchain':
+        # a chain of hops that each carry one label and a pointer to the previous hop: the expanded name grows with every hop
+        hops = rng.choice([5, 100, 127, 128, 129, 1000, 2000])
+        body = bytearray(b'\x01z\x00')
+        base = 12 + 3 + 10
+        prev = base
+        pos = base + len(body)
+        for _ in range(hops):
+            if pos >= 0x3FF0 or 12 + 3 + 10 + len(body) + 4 + 14 > 8966:
+                break
+            body += b'\x01a' + bytes([0xC0 | (prev >> 8), prev & 255])
+            prev = pos
+            pos += 4
+        txt = bytes([1]) + b'x' + bytes([0]) + bytes([0, 16, 0, 1, 0, 0, 0, 120, len(body) >> 8, len(body) & 255]) + bytes(body)
+        rec = bytes([0xC0 | (prev >> 8), prev & 255]) + bytes([0, 16, 0, 1, 0, 0, 0, 120, 0, 0])
+        hdr[7] = 2
+        if rng.random() < 0.5:
+            # the same as a query: the question's name enters the chain (which sits behind it, in an additional record's rdata)
+            q = bytearray([0, 0, 0, 0, 0, 1, 0, 0, 0, 0, 0, 1])
+            qn = bytes([0xC0 | ((prev + 6) >> 8), (prev + 6) & 255]) + bytes([0, 12, 0, 1])
+            body2 = bytearray(b'\x01z\x00')
+            base2 = 12 + len(qn) + 3 + 10
+            prev2, pos2 = base2, base2 + 3
+            for _ in range(hops):
+                if pos2 >= 0x3FF0 or base2 + len(body2) + 4 > 8966:
+                    break
+                body2 += b'\x01a' + bytes([0xC0 | (prev2 >> 8), prev2 & 255])
+                prev2 = pos2
+                pos2 += 4
+            qn = bytes([0xC0 | (prev2 >> 8), prev2 & 255]) + bytes([0, 12, 0, 1])
+            return bytes(q) + qn + bytes([1]) + b'x' + bytes([0]) + bytes([0, 16, 0, 1, 0, 0, 0, 120, len(body2) >> 8, len(body2) & 255]) + bytes(body2)
+        return bytes(hdr) + txt + rec
     if kind == 'nsecmap':
         # the type bitmap of an NSEC record: window blocks that are empty, repeated, out of order, longer than 32 octets, or that
         # run past the end of the rdata (a block nobody advances over is a loop that never ends)
@@ -428,9 +511,27 @@ def run(ctx: Ctx) -> None:
     for _ in range(ctx.pick(300, 5000)):
         n = rng.choice([0, 1, 11, 12, 13, 20, 60, 300, 1500, 8966])
         datas.append(rng.randbytes(n))
+    # responses cut off inside the rdata of an address record (every length of the last record)
+    for k in range(ctx.pick(6, 40)):
+        nm = b'\x04host\x05local\x00'
+        full = bytes([0, 0, 0x84, 0, 0, 0, 0, 2, 0, 0, 0, 0]) + nm + bytes([0, 1, 0x80, 1, 0, 0, 0, 120, 0, 4, 10, 0, 0, k]) + \
+            b'\xc0\x0c' + bytes([0, 28, 0x80, 1, 0, 0, 0, 120, 0, 16]) + rng.choice([b'\xfe\x80', b'\x20\x01']) + bytes(13) + bytes([k + 1])
+        for cut in range(len(full) - 17, len(full)):
+            datas.append(full[:cut])
     datas = [d for d in datas if len(d) <= 8966]
     uniq = list(dict.fromkeys(datas))
     jobs = [('b%d' % k, d) for k, d in enumerate(uniq)]
+    # large well-formed responses with hundreds of compression pointers (two per record): beyond TLC's StrictParse, compared with
+    # the independent parser of the harness
+    for k, nrec in enumerate(ctx.pick([50, 366, 500, 640], [10, 50, 200, 365, 366, 400, 500, 600, 640])):
+        first = b'\x05_bulk\x04_tcp\x05local\x00'
+        body = bytearray([0, 0, 0x84, 0, 0, 0, nrec >> 8, nrec & 255, 0, 0, 0, 0])
+        for i in range(nrec):
+            owner = first if i == 0 else b'\xc0\x0c'
+            inst = b'\x04i%03d' % i + b'\xc0\x0c'
+            body += owner + bytes([0, 12, 0, 1, 0, 0, 0x11, 0x94, 0, len(inst)]) + inst
+        if len(body) <= 8966:
+            jobs.append(('big%d' % k, bytes(body)))
     ctx.log('%d byte strings (%d enumerated over the adversarial alphabet)' % (len(jobs), n_small))
     with mp.get_context('fork').Pool(16 if ctx.thorough else 8) as pool:
         cases = pool.map(make_case, jobs, chunksize=64)
